@@ -137,7 +137,7 @@ Lemma run_zero_gain st i n x din T :
   heap (fst (step st (ORun i x din T))) = heap st /\
   epoch (fst (step st (ORun i x din T))) = epoch st /\
   forall e, In e (snd (step st (ORun i x din T))) ->
-    exists W Win b, e_term e = TRun (c_hyp (n_cfg n)) W Win b (wfb_mat n) (n_log n ++ [mkRun x T []]).
+    exists W Win b, e_term e = TRun (c_hyp (n_cfg n)) W Win b (wfb_mat n) (n_log n ++ [mkRun x T (fb_active n) []]).
 Proof.
   intros Hn Q Hp. simpl. rewrite Hn. destruct (n_params n) as [[[[W Win] b] d]|] eqn:P; [|congruence].
   unfold do_run. rewrite P.
@@ -275,7 +275,7 @@ Lemma do_run_spec st i n x T :
   match n_params n with
   | Some (W, Win, b, din) =>
       if c_fb (n_cfg n) && (match n_wfb n with None => true | _ => false end) then st' = st /\ snd (do_run st i n x T) = []
-      else let log := n_log n ++ [mkRun x T (snd (prun_noise T (heap st (n_rng n)) n din))] in
+      else let log := n_log n ++ [mkRun x T (fb_active n) (snd (prun_noise T (heap st (n_rng n)) n din))] in
            nodes st' = upd (nodes st) i (mkNode (n_cfg n) (n_rng n) (n_params n) (n_wfb n) log) /\
            heap st' (n_rng n) = fst (prun_noise T (heap st (n_rng n)) n din) /\
            (forall k, k <> n_rng n -> heap st' k = heap st k) /\
@@ -404,7 +404,7 @@ Lemma step_other i st o :
   touches i o = false -> wf i st ->
   view i (fst (step st o)) = view i st /\ proj i (snd (step st o)) = [] /\ wf i (fst (step st o)).
 Proof.
-  intros Ht W. destruct o as [s|g s|r|g r|j c|j din|j dfb|j x din T|sd r post|s|j rs hrs cfg|j data]; simpl in Ht; cbv beta iota zeta delta [step].
+  intros Ht W. destruct o as [s|g s|r|g r|j c|j din|j dfb|j x din T|sd r post|s|j rs hrs cfg|j data|j]; simpl in Ht; cbv beta iota zeta delta [step].
   - (* set_seed *) repeat split; auto.
   - (* new generator *) repeat split; auto.
   - pose proof (draw_src_pframe st SNone r 0) as F. destruct (draw_src st SNone r 0) as [st1 d]. simpl in *.
@@ -467,6 +467,10 @@ Proof.
     destruct F as (_ & nn & _ & _ & hh). unfold view. simpl. rewrite nn, hh.
     split; [reflexivity | split; [reflexivity|]]. intros k m Hk. simpl in Hk. rewrite nn in Hk. eauto.
   - destruct (sks st j); repeat split; auto.
+  - (* attach feedback to j <> i *)
+    apply neqb_neq in Ht. destruct (nodes st j) as [n|] eqn:N; [|repeat split; auto].
+    unfold view. simpl. rewrite upd_other by assumption. split; [reflexivity | split; [reflexivity|]].
+    eapply wf_upd; [exact W | reflexivity | intros _; simpl; eapply W; eauto].
 Qed.
 
 Lemma own_wf_upd i st st' N : wf i st -> nodes st' = upd (nodes st) i N -> wf i st'.
@@ -506,7 +510,7 @@ Proof.
   intros Ht Hs Hv Ho Wa Wb.
   assert (Hn : nodes a i = nodes b i) by (apply view_nodes; assumption).
   assert (Hh : forall n, nodes a i = Some n -> heap a (GPriv i) = heap b (GPriv i)) by (intros; eapply view_heap; eauto).
-  destruct o as [s|g s|r|g r|j c|j din|j dfb|j x din T|sd r post|s|j rs hrs cfg|j data]; simpl in Ht; try discriminate;
+  destruct o as [s|g s|r|g r|j c|j din|j dfb|j x din T|sd r post|s|j rs hrs cfg|j data|j]; simpl in Ht; try discriminate;
     apply Nat.eqb_eq in Ht; subst j; cbv beta iota zeta delta [step].
   - (* construct *)
     destruct (Hs eq_refl) as (s & Hc). unfold construct. rewrite Hc. unfold view, own_seeded. simpl.
@@ -557,6 +561,13 @@ Proof.
            destruct (c_fb (n_cfg n) && match n_wfb n with None => true | Some _ => false end).
            ++ destruct S as (_ & ->). constructor.
            ++ destruct S as (_ & _ & _ & _ & _ & _ & ->). repeat constructor.
+    + simpl. unfold own_seeded. rewrite N. repeat split; auto.
+  - (* attach feedback *)
+    rewrite <- Hn. unfold own_seeded in Ho. destruct (nodes a i) as [n|] eqn:N.
+    + destruct Ho as ((s & Hc) & Hr). unfold view, own_seeded. simpl. rewrite !upd_same, (Hh _ eq_refl). simpl.
+      repeat split; eauto.
+      * eapply own_wf_upd; [exact Wa | reflexivity].
+      * eapply own_wf_upd; [exact Wb | reflexivity].
     + simpl. unfold own_seeded. rewrite N. repeat split; auto.
 Qed.
 
@@ -634,7 +645,7 @@ Proof.
     + destruct S as (-> & ->). split; [assumption | constructor].
     + destruct S as (nn & hh & _ & _ & _ & _ & ee). rewrite ee. rewrite Hr in *.
       pose proof (prun_noise_rooted s T (heap st (GPriv i)) n din Hg) as (R1 & R2).
-      assert (L : log_rooted s (n_log n ++ [mkRun x T (snd (prun_noise T (heap st (GPriv i)) n din))])).
+      assert (L : log_rooted s (n_log n ++ [mkRun x T (fb_active n) (snd (prun_noise T (heap st (GPriv i)) n din))])).
       { apply Forall_app. split; [exact Hl | repeat constructor; exact R2]. }
       split.
       * unfold inv. rewrite nn, upd_same. simpl. rewrite hh. repeat split; auto; apply Hp.
@@ -648,7 +659,7 @@ Lemma step_own_inv i s st o :
   inv i s (fst (step st o)) /\ Forall (fun e => term_rooted s (e_term e)) (snd (step st o)).
 Proof.
   intros Ht Hs I.
-  destruct o as [s0|g s0|r|g r|j c|j din|j dfb|j x din T|sd r post|s0|j rs hrs cfg|j data]; simpl in Ht; try discriminate;
+  destruct o as [s0|g s0|r|g r|j c|j din|j dfb|j x din T|sd r post|s0|j rs hrs cfg|j data|j]; simpl in Ht; try discriminate;
     apply Nat.eqb_eq in Ht; subst j; cbv beta iota zeta delta [step].
   - specialize (Hs eq_refl). unfold construct. rewrite Hs. unfold inv. simpl. rewrite upd_same, upd_heap_same. simpl.
     repeat split; auto. constructor.
@@ -675,6 +686,9 @@ Proof.
       pose proof (do_run_inv i s (set_node st i n1) n1 x T N1 I1) as (I2 & E2).
       destruct (do_run (set_node st i n1) i n1 x T) as [st2 ev2]. simpl in *. split; [assumption|].
       repeat constructor; simpl; auto. apply init_bias_rooted.
+  - pose proof I as I0. unfold inv in I. destruct (nodes st i) as [n|] eqn:N; [|split; [assumption | constructor]].
+    destruct I as (Hc & Hr & Hg & Hp & Hf & Hl). simpl. split; [|constructor].
+    unfold inv. simpl. rewrite upd_same. simpl. repeat split; auto.
 Qed.
 
 Lemma Forall_filter {A} (P : A -> Prop) f l : Forall P l -> Forall P (filter f l).
@@ -864,7 +878,7 @@ Lemma sim_step e0 a b o :
   sim e0 a b -> sim e0 (fst (step a o)) (fst (step b o)) /\ snd (step a o) = snd (step b o).
 Proof.
   intros S. pose proof S as [E L D N K H V].
-  destruct o as [s|g s|r|g r|j c|j din|j dfb|j x din T|sd r post|s|j rs hrs cfg|j data]; cbv beta iota zeta delta [step].
+  destruct o as [s|g s|r|g r|j c|j din|j dfb|j x din T|sd r post|s|j rs hrs cfg|j data|j]; cbv beta iota zeta delta [step].
   - (* set_seed *) split; [|reflexivity]. unfold do_set_seed. constructor; simpl; auto; try lia.
     + intros k Hk. unfold upd_heap. rewrite E. destruct (gid_eqb (GGlob (Datatypes.S (epoch b))) k) eqn:Q; [reflexivity|].
       apply H. destruct k as [e| |]; simpl in *; auto. destruct (Nat.eq_dec e (Datatypes.S (epoch b))) as [->|Ne].
@@ -901,6 +915,8 @@ Proof.
     destruct (draw_src a SNone (mkReq DINT 1 1 0) 0) as [a1 x1]. destruct (draw_src b SNone (mkReq DINT 1 1 0) 0) as [b1 y1].
     simpl in *. subst. split; [apply sim_set_sk; assumption | reflexivity].
   - rewrite <- K. destruct (sks a j); [|auto]. split; [apply sim_set_sk; assumption | reflexivity].
+  - rewrite <- N. destruct (nodes a j) as [n|] eqn:Nj; [|auto]. split; [|reflexivity].
+    apply sim_set_node; [assumption | simpl; eauto].
 Qed.
 
 Lemma sim_exec e0 : forall h a b, sim e0 a b -> snd (exec a h) = snd (exec b h).
